@@ -331,6 +331,10 @@ func (vr *variableResolver) resolve(ctx *ExecutionContext) (*Value, error) {
 					switch current.Kind() {
 					case reflect.Struct:
 						current = current.FieldByName(part.s)
+						if current.IsValid() && !current.CanInterface() {
+							// an unexported field is not accessible from a template
+							return AsValue(nil), nil
+						}
 					case reflect.Map:
 						current = current.MapIndex(reflect.ValueOf(part.s))
 					default:
@@ -360,6 +364,10 @@ func (vr *variableResolver) resolve(ctx *ExecutionContext) (*Value, error) {
 							return nil, err
 						}
 						current = current.FieldByName(sv.String())
+						if current.IsValid() && !current.CanInterface() {
+							// an unexported field is not accessible from a template
+							return AsValue(nil), nil
+						}
 					case reflect.Map:
 						sv, err := part.subscript.Evaluate(ctx)
 						if err != nil {
